@@ -407,7 +407,22 @@ func runBatch(dir, tag string, cases []replayCase, race bool) ([]replayResult, e
 
 var replaySkip int
 
+// isolatedReplay re-runs one witness alone in a fresh test process (at most
+// 12 times per check).
+func isolatedReplay(dir string, c replayCase, w symx.Witness, runs *int) *replayResult {
+	if *runs >= 12 {
+		return nil
+	}
+	*runs++
+	rs, err := runBatch(dir, "isolated", []replayCase{{Harness: c.Harness, Params: c.Params, Witnesses: []symx.Witness{w}}}, false)
+	if err != nil || len(rs) != 1 {
+		return nil
+	}
+	return &rs[0]
+}
+
 func nativeReplay(results []*symx.CaseResult) (*replayReport, error) {
+	isolatedRuns := 0
 	start := time.Now()
 	dir := workDir()
 	type ref struct {
@@ -530,6 +545,19 @@ func nativeReplay(results []*symx.CaseResult) (*replayReport, error) {
 					v.Kind, v.ID = "assert", strings.TrimPrefix(r.Outcome, "assert:")
 				}
 				rep.confirmed = append(rep.confirmed, confirmedViolation{Spec: spec, V: &v, Native: r.Outcome, Detail: r.Detail})
+			} else if iso := isolatedReplay(dir, cases[r.Case], w, &isolatedRuns); iso != nil && (iso.Outcome == w.Outcome || iso.Outcome == "panic" || iso.Outcome == "fatal" || strings.HasPrefix(iso.Outcome, "assert:")) {
+				// the batch runs every witness in one process; package-level
+				// state left behind by earlier witnesses can mask a failure
+				// that a fresh process (which is what the engine models) shows
+				v := *rf.viol
+				if iso.Outcome != w.Outcome {
+					if iso.Outcome == "panic" || iso.Outcome == "fatal" {
+						v.Kind, v.ID, v.Msg = "panic", "panic:native:"+firstLine(iso.Detail), "native panic: "+iso.Detail
+					} else {
+						v.Kind, v.ID = "assert", strings.TrimPrefix(iso.Outcome, "assert:")
+					}
+				}
+				rep.confirmed = append(rep.confirmed, confirmedViolation{Spec: spec, V: &v, Native: iso.Outcome + " (fresh process)", Detail: iso.Detail})
 			} else {
 				msg := fmt.Sprintf("%s %s/%s: engine says %s, native run says %s (vector %v) %s", spec, rf.viol.Case, rf.viol.ID, w.Outcome, r.Outcome, w.Vector, r.Detail)
 				rep.unconfirmed = append(rep.unconfirmed, msg)
